@@ -82,10 +82,18 @@ def spaces(tier):
                   len(cli), decode_cli)]
 
 
+class Refused(Exception):
+    pass
+
+
 def make_sy(name):
     pars = simdata.parameters(name, 'field')
-    return (sy_mod.create_specific_yield_function(
-        dict(pars['specific_yield'])), simdata.sy_breaks(pars), pars)
+    try:
+        sy = sy_mod.create_specific_yield_function(
+            dict(pars['specific_yield']))
+    except ValueError as exc:
+        raise Refused(repr(exc))
+    return (sy, simdata.sy_breaks(pars), pars)
 
 
 def refine(grid, r):
@@ -162,9 +170,7 @@ def run_cli(case):
     status, _, _, exc = cs.run_main(argv)
     viol = []
     connection = sqlite3.connect(db)
-    view = connection.execute(
-        'SELECT zeta_mm, mean_crossing_depth_mm FROM average_rising_depth '
-        'ORDER BY zeta_mm').fetchall()
+    view = simdata.master_curve(connection, 'rise')
     connection.close()
     os.unlink(db)
     if status != 0:
@@ -199,7 +205,9 @@ def run_cli(case):
             viol.append(('table-shape', 'got %r' % (doc[:2],)))
         else:
             for row, z, m, s in zip(doc[1:], levels, measured, ref):
-                if (len(row) != 3 or row[0] != z or row[1] != m
+                if (len(row) != 3 or not abs(row[0] - z) <= 1e-9 * (
+                        abs(z) + 1) or not abs(row[1] - m) <= 1e-12 * (
+                            abs(m) + 1)
                         or not abs(row[2] - s) <= tol):
                     viol.append((
                         'table-row',
@@ -213,6 +221,12 @@ def run_cli(case):
 
 
 def run_case(case):
-    if case['kind'] == 'fn':
-        return run_fn(case)
-    return run_cli(case)
+    try:
+        if case['kind'] == 'fn':
+            return run_fn(case)
+        return run_cli(case)
+    except Refused as exc:
+        # a parameter set the code does not accept is outside the property
+        return Result(nontrivial=False, outcome='refused',
+                      counters={'parameter_sets_refused': 1},
+                      obs={'refused': str(exc)[:120]})
